@@ -92,6 +92,9 @@ def spec_app_class(I, base_rel=APP, base_name="Application"):
         return t
 
     def evaluate(I_, self):
+        # hook precondition: the results are read here, i.e. the application is FINISHED when evaluate() runs
+        I_.ctx.oblige(f"{base_name}.join::hook_requires[evaluate() is called in state FINISHED]",
+                      state_is(self.attrs["_state"], members(I_)["FINISHED"]), "pre")
         self.attrs["_g_evals"] = self.attrs["_g_evals"] + 1
         k = I_.ctx.choose(3)
         if k == 1:
@@ -381,6 +384,8 @@ def spec_local_class(I):
         return n
 
     def evaluate(I_, self):
+        I_.ctx.oblige("LocalApp.join::hook_requires[evaluate() is called in state FINISHED]",
+                      state_is(self.attrs["_state"], members(I_)["FINISHED"]), "pre")
         self.attrs["_g_evals"] = self.attrs["_g_evals"] + 1
         f, _ = base.lookup("evaluate")
         I_.call(f, [self], {})
